@@ -341,6 +341,20 @@ def run(rep, tier, seed):
         c, e = max((rng.choice(flat) for _ in range(4)), key=lambda ce: len(ce[1]))
         check_run_of_equal_items(rep, c, e, 3 * io.DEFAULT_BUFFER_SIZE // max(1, len(e)) + 5)
 
+    # top-level items larger than the wrapper's cache window and of equal size back to back (and sizes adding up to a later
+    # item's size) on a non-seekable stream: one object per encoding, whatever the positions the wrapper reports
+    for sizes in ([9000, 9000], [9000, 9000, 9000, 3], [4996, 4996, 9996, 1], [8996, 8996, 17992, 1]):
+        items = []
+        for j, n_ in enumerate(sizes):
+            c = engine.Case(('str', 4), ('s', bytes([65 + j]) * n_))
+            ie = codec.impl_encode('ber', c.t, c.v, True, 0, obj=c.fresh_obj())
+            items.append((c, ie[1]))
+        rep.case('equal-big-items %s' % sizes, nontrivial=True)
+        check_stream(rep, items, 'ber', False, rng, kinds=('growing', 'blocks-3'))
+        check_stream(rep, items, 'ber', True, rng)
+        # and read by ONE decoder (what goes wrong between two objects shows on the next turn of its loop)
+        check_run_of_equal_items(rep, items[0][0], items[0][1], 3)
+
     def check_one(c, drv, case, r):
         check_case(c, drv, case, [tuple(r.get('enc', ['ber', True, 0]))], common.rng_for(0, 'shrink'))
     engine.post_shrink(rep, drv, check_one)
